@@ -49,7 +49,7 @@ def gen_case(rng):
             names[rng.randrange(1, n)] = names[rng.randrange(0, n)]
     reads = []
     for nm in names:
-        L = rng.choice([0, 1, 5, 5, 10, 10, 10, 50]) if fmt == "bam" else rng.choice([1, 5, 5, 10, 10, 10, 50])
+        L = rng.choice([0, 1, 5, 5, 10, 10, 10, 50]) if fmt == "bam" else rng.choice([0, 1, 5, 5, 10, 10, 10, 10, 50, 50])
         seq = "".join(rng.choice("ACGT") for _ in range(L))
         qual = "".join(chr(33 + rng.randint(0, 40)) for _ in range(L))
         reads.append({"name": nm, "seq": seq, "qual": qual, "comment": rng.choice(["", "", "x=1 y"]) if fmt != "bam" else "",
